@@ -1,5 +1,29 @@
 import EmsModel.Core.ArrProto
-/-! Line-protocol driver for C03 (flatten / wind); operations in `Core/ArrProto.lean`. -/
+/-! Line-protocol driver for C03 (flatten / wind); operations in `Core/ArrProto.lean`.
+
+Further operation (presentations of one variable):
+  `ravelp <grids> <default> <arr> <order,> <lin|->`
+the stored variable `arr` handed over as `arr.transpose(*order)` - the MODEL transposes it (`NArr.transposeTo`) -
+and flattened; `ERR` when `order` is not an ordering of the variable's dimensions (xarray raises) or the flattening
+is refused. -/
 open Ems Ems.Proto
-def step (line : String) : String := (Ems.ArrProto.step? (words line)).getD "BAD"
+
+def stepPresented (ws : List String) : Option String :=
+  match ws with
+  | ["ravelp", gs, dflt, arr, order, lin] =>
+    some (match Ems.ArrProto.parseGrids? gs, Ems.ArrProto.parseArr? arr with
+    | some grids, some a =>
+      let ord := Ems.ArrProto.parseNames order
+      if ord.isPerm a.names then
+        Ems.ArrProto.showRes
+          (({ grids := grids, default := dflt } : GridConv).ravel (a.transposeTo ord) (Ems.ArrProto.opt lin))
+      else "ERR"
+    | _, _ => "BAD")
+  | _ => none
+
+def step (line : String) : String :=
+  match stepPresented (words line) with
+  | some out => out
+  | none => (Ems.ArrProto.step? (words line)).getD "BAD"
+
 def main : IO Unit := loop step
